@@ -1,7 +1,7 @@
 // Instantiation selected by -D macros, shared by the vector explorers.  C++17.
 //   CFG_FLAVOUR 0 amc::vector | 1 SmallVector<N> | 2 FixedCapacityVector<N> throwing | 3 FixedCapacityVector<N> unchecked
 //   CFG_N       inline / fixed capacity
-//   CFG_ELEM    1 TC1(uint8) | 4 TC4(int32) | 12 TC12 | 20 TR | 21 NTR | 22 pair<TR,TR> | 23 pair<TR,NTR>
+//   CFG_ELEM    1 TC1(uint8) | 4 TC4(int32) | 12 TC12 | 32 TC32 (alignas 32) | 300 TC300 (300 bytes) | 20 TR | 21 NTR | 22 pair<TR,TR> | 23 pair<TR,NTR>
 //   CFG_ST      size_type
 //   CFG_ALLOC   0 amc::allocator | 1 std::allocator | 2 LedgerStd | 3 LedgerRealloc | 4 BasicAllocatorWrapper<LedgerBasic>
 #pragma once
@@ -42,6 +42,8 @@ typedef int32_t T;
 typedef vf::TC12 T;
 #elif CFG_ELEM == 32
 typedef vf::TC32 T;
+#elif CFG_ELEM == 300
+typedef vf::TC300 T;
 #elif CFG_ELEM == 20
 typedef vf::TR T;
 #elif CFG_ELEM == 21
